@@ -191,12 +191,14 @@ func checkC15(c *Ctx, w *World) {
 				continue
 			}
 			good := true
-			for _, o := range origins(cur.Call.Value) {
-				e, isE := o.Val.(*ssa.Extract)
+			// (resolved under the call's reaching condition: a nil placeholder of a "not requested" branch that is
+			// always replaced by the default before the call is not an origin)
+			for _, ov := range cs.ResolveUnder(cur.Call.Value, cs.Reach(cur)) {
+				e, isE := stripConv(ov).(*ssa.Extract)
 				if isE && e.Tuple == ssa.Value(byName) && e.Index == 0 {
 					continue
 				}
-				if o.Val == ssa.Value(byDefault) {
+				if stripConv(ov) == ssa.Value(byDefault) {
 					continue
 				}
 				good = false
